@@ -33,6 +33,7 @@ type Config struct {
 	M     int    `json:"m"`
 	Tasks int    `json:"tasks"`
 	Sched []int  `json:"sched"` // which runnable task is released at each scheduling point (modulo), then round-robin
+	Pre   int    `json:"pre,omitempty"`   // prefixes /bg/0../bg/Pre-1, each with a route on every face, registered before the tasks start (a RIB of realistic size: one face's clean-up is a FIB batch of dozens of changes)
 	Readv bool   `json:"readv,omitempty"` // the real NLSR readvertiser is attached to the RIB (it is called back inside RIB operations)
 }
 
@@ -65,6 +66,9 @@ func (Engine) Generate(prop string, r *kit.Rand, tier string) *kit.Scenario[Conf
 		c.Tasks = r.Range(6, 8)
 	}
 	c.Readv = r.Chance(0.4)
+	if r.Chance(0.15) {
+		c.Pre = r.Range(11, 16)
+	}
 	origins := []uint64{0, 0, 128}
 	if c.Readv {
 		origins = []uint64{0, 65, 65, 128} // client routes are the ones that are readvertised
@@ -75,6 +79,9 @@ func (Engine) Generate(prop string, r *kit.Rand, tier string) *kit.Scenario[Conf
 		nops = 16
 	}
 	weights := []int{30, 12, 10, 6, 3, 4, 2, 28, 5, 8}
+	if c.Pre > 0 {
+		weights = []int{12, 6, 22, 3, 2, 2, 1, 36, 12, 4} // face teardowns (long FIB batches) among lookups and listings
+	}
 	if tier == "thorough" && r.Chance(0.08) {
 		// the quantifier's upper end: up to 16 goroutines, mostly forwarding-thread lookups around a few writers
 		// (keeps the linearizability search tractable)
@@ -104,6 +111,9 @@ func (Engine) Generate(prop string, r *kit.Rand, tier string) *kit.Scenario[Conf
 			o.Op, o.Name = "unsetstrat", kit.Pick(r, []string{"/r", "/f", "/r/a"})
 		case 7:
 			o.Op, o.Name = "lookup", kit.Pick(r, lookNames)
+			if c.Pre > 0 && r.Chance(0.5) {
+				o.Name = fmt.Sprintf("/bg/%d", r.Intn(c.Pre))
+			}
 		case 8:
 			o.Op = "list"
 		case 9:
@@ -151,6 +161,10 @@ func (Engine) Simplify(sc *kit.Scenario[Config, Op]) []*kit.Scenario[Config, Op]
 	}
 	if sc.Config.Readv {
 		modC(func(c *Config) { c.Readv = false })
+	}
+	if sc.Config.Pre > 0 {
+		modC(func(c *Config) { c.Pre = 0 })
+		modC(func(c *Config) { c.Pre-- })
 	}
 	// renumber tasks compactly
 	used := map[int]bool{}
@@ -604,6 +618,14 @@ func (e Engine) runOnce(t *testing.T, ctx *kit.Ctx, sc *kit.Scenario[Config, Op]
 		dispatch.RemoveFace(id)
 	}
 	fib := table.FibStrategyTable
+	var preOps []*Op
+	for i := 0; i < c.Pre; i++ {
+		for f := uint64(1); f <= 3; f++ {
+			o := &Op{Task: -1, Op: "reg", Name: fmt.Sprintf("/bg/%d", i), Face: f, Cost: uint64(i) % 3, Flags: 1}
+			table.Rib.AddEncRoute(mkName(o.Name), &table.Route{FaceID: o.Face, Origin: o.Origin, Cost: o.Cost, Flags: o.Flags})
+			preOps = append(preOps, o)
+		}
+	}
 
 	ntask := max(c.Tasks, 1)
 	progs := make([][]*Op, ntask)
@@ -635,9 +657,14 @@ func (e Engine) runOnce(t *testing.T, ctx *kit.Ctx, sc *kit.Scenario[Config, Op]
 		s.toSched <- yieldMsg{task: me, tag: tag}
 		<-ch
 	}
-	defer func() { table.VerifYield = nil }()
+	setAutoYield(table.VerifYield)
+	defer func() { table.VerifYield = nil; setAutoYield(nil) }()
 
 	var ops []porcupine.Operation
+	for _, o := range preOps { // sequential history before any task starts
+		ops = append(ops, porcupine.Operation{ClientId: ntask + 1, Input: o, Call: int64(s.counter), Output: nil, Return: int64(s.counter + 1)})
+		s.counter += 2
+	}
 	mutated := ""
 	type pend struct {
 		op   *Op
@@ -945,6 +972,9 @@ func (e Engine) runOnce(t *testing.T, ctx *kit.Ctx, sc *kit.Scenario[Config, Op]
 			inBatch[pick] = false // it was parked at the end of the batch, still holding the lock; now it has moved on
 		}
 		parked[pick] = msg.tag
+		if strings.HasPrefix(msg.tag, "auto:") {
+			ctx.Probe("automatic-scheduling-point")
+		}
 		if msg.tag == "fib.batch" {
 			inBatch[pick] = true
 		}
@@ -1025,6 +1055,7 @@ func (e Engine) runOnce(t *testing.T, ctx *kit.Ctx, sc *kit.Scenario[Config, Op]
 	if res.Violation != nil {
 		// let parked tasks run to completion sequentially so that no goroutine leaks into the next run
 		table.VerifYield = nil
+		setAutoYield(nil)
 		for i := 0; i < len(alive); i++ {
 			if alive[i] {
 				s.cur = i
@@ -1051,6 +1082,10 @@ func (e Engine) runOnce(t *testing.T, ctx *kit.Ctx, sc *kit.Scenario[Config, Op]
 	}
 	ctx.Probe("schedule-completed")
 	table.VerifYield = nil
+	setAutoYield(nil)
+	if autoYield {
+		ctx.Probe("built-with-automatic-scheduling-points")
+	}
 	if mutated != "" {
 		res.Violation = &kit.Violation{Class: "C16/lookup-result-mutated-after-return", Key: c.Fib, Step: step, Detail: mutated}
 		return res
@@ -1071,7 +1106,11 @@ func (e Engine) runOnce(t *testing.T, ctx *kit.Ctx, sc *kit.Scenario[Config, Op]
 	ops = append(ops, porcupine.Operation{ClientId: ntask, Input: fin, Call: int64(s.counter + 1), Output: strings.Join(xs, " "), Return: int64(s.counter + 2)})
 	// final lookups over the name universe (next hops and strategy), after everything completed
 	fc := s.counter + 3
-	for _, n := range lookNames {
+	universe := append([]string(nil), lookNames...)
+	for i := 0; i < c.Pre; i++ {
+		universe = append(universe, fmt.Sprintf("/bg/%d", i))
+	}
+	for _, n := range universe {
 		ops = append(ops, porcupine.Operation{ClientId: ntask, Input: &Op{Task: ntask, Op: "lookup", Name: n}, Call: int64(fc), Output: renderLookup(fib.FindNextHopsEnc(mkName(n))), Return: int64(fc + 1)})
 		sn := "best-route"
 		if st := fib.FindStrategyEnc(mkName(n)); st != nil && len(st) >= 4 {
